@@ -447,6 +447,21 @@ int main(int argc, char **argv) {
         if (a3[0]) mprotect(p, pages * 4096, prot_of(a3));
         reply("ok %p", (void *)p);
       }
+    } else if (!strcmp(cmd, "pattern_at")) {
+      // pattern_at <addr> <pages> [prot]: a pattern region at a fixed (e.g. low) address, PROT_NONE pages around it
+      uintptr_t addr = strtoull(a1, NULL, 0);
+      size_t pages = strtoul(a2, NULL, 0);
+      char *base = mmap((void *)(addr - 4096), (pages + 2) * 4096, PROT_NONE, MAP_PRIVATE | MAP_ANONYMOUS | MAP_FIXED_NOREPLACE, -1, 0);
+      if (base == MAP_FAILED) {
+        reply("err mmap %d", errno);
+      } else {
+        char *p = base + 4096;
+        mprotect(p, pages * 4096, PROT_READ | PROT_WRITE);
+        for (size_t i = 0; i < pages * 4096; i++) p[i] = (char)pattern_byte((uint64_t)(uintptr_t)(p + i));
+        munmap(p + pages * 4096, 4096);
+        if (a3[0]) mprotect(p, pages * 4096, prot_of(a3));
+        reply("ok %p", (void *)p);
+      }
     } else if (!strcmp(cmd, "mprotect")) {
       uintptr_t addr = strtoull(a1, NULL, 0);
       size_t len = strtoull(a2, NULL, 0);
